@@ -92,7 +92,7 @@ def gen(rng, tier):
                 ops.append([q, rng.randrange(n)])
     ops.append(["cc"])
     ops.append(["sweep"])
-    return {"n": n, "ops": ops}
+    return {"n": n, "ops": ops, "base": rng.choice([0, 0, 0, 1000, 100000, -300])}
 
 
 class Model:
@@ -221,7 +221,11 @@ def execute(R, ctx):
         if exact and got != comp & m.known:
             raise Violation("set-incomplete", f"after connect_cycles equivalent_set({a}) = {sorted(got)}, component is {sorted(comp & m.known)}")
 
-    for op in R["ops"]:
+    # labels are shifted by a per-run offset; every use computes a fresh int object (labels beyond CPython's
+    # small-integer cache are equal but not identical from one call to the next, as after a pickle restart)
+    base = R.get("base", 0)
+    ops = [[op[0]] + [base + x for x in op[1:]] for op in R["ops"]]
+    for op in ops:
         k = op[0]
         if k in ("two", "one"):
             a, b = op[1], op[2]
